@@ -8,11 +8,15 @@ FAMILIES = {"C14": ["hub", "errors"], "C01": ["conc", "closures", "framing"], "C
             "C13": ["hub", "relay", "nestedlink"], "C17": ["wire"]}
 
 
-def expected_iter(n, fail_at):
+def cb_fail_text(tag, i):
+    return {1: "cbfail%d\n", 2: "  cbfail%d", 3: "\tcb fail\n\t%d \n"}.get(tag % 4, "cbfail%d") % i
+
+
+def expected_iter(n, fail_at, tag=0):
     cnt = abs(n)
     parts = []
     for i in range(cnt):
-        parts.append("r%d/%s" % (i, ("cbfail%d" % i) if i == fail_at else ""))
+        parts.append("r%d/%s" % (i, cb_fail_text(tag, i) if i == fail_at else ""))
     return ";".join(parts)
 
 
@@ -193,8 +197,8 @@ def mon_c11(rec):
             if c["err"] != "":
                 out.append("Iter tag %d (n=%d) failed: %r" % (c["tag"], n, c["err"]))
                 continue
-            if c["ret"] != expected_iter(n, fail_at):
-                out.append("Iter tag %d (n=%d): the callee received results %r, expected %r" % (c["tag"], n, c["ret"], expected_iter(n, fail_at)))
+            if c["ret"] != expected_iter(n, fail_at, c["tag"]):
+                out.append("Iter tag %d (n=%d): the callee received results %r, expected %r" % (c["tag"], n, c["ret"], expected_iter(n, fail_at, c["tag"])))
             runs = c.get("extra", "").split("|") if c.get("extra") else []
             if sorted(runs) != expected_runs(n):
                 out.append("Iter tag %d (n=%d): the caller's function ran with %s, expected %s" % (c["tag"], n, sorted(runs)[:6], expected_runs(n)[:6]))
@@ -212,6 +216,9 @@ def mon_c11(rec):
         elif c["m"] == "IterCount":
             if c["err"] != "" or c["ret"] != "0:0/;1:10/;2:8589934594/":
                 out.append("closure with named integer parameters: the callee's invocations returned %r (error %r), expected '0:0/;1:10/;2:8589934594/'" % (c["ret"], c["err"]))
+        elif c["m"] == "IterDerived":
+            if c["err"] != "" or c["ret"] != "A=/context canceled;B=r0/;C=r2/":
+                out.append("one invocation of the callable was cancelled through its own context while another was in flight: the callee's invocations ended as %r (call error %r), expected 'A=/context canceled;B=r0/;C=r2/' (only the cancelled invocation is affected)" % (c["ret"], c["err"]))
         elif c["m"] == "Call0":
             if c["err"] != "" or c["ret"] != "4850":
                 out.append("a closure that takes only a context: the callee's invocation returned (%s, %r), expected (4850, '')" % (c["ret"], c["err"]))
@@ -311,6 +318,10 @@ def mon_c13(rec):
             i = c["tag"] - 7100
             if i != victim and (c["err"] != "" or c["ret"] != str(c["tag"] + 1)):
                 out.append("a closure the hub passed on link %d stopped working when link %s failed: the call returned (%s, %r)" % (i, victim, c["ret"], c["err"]))
+        if c["m"] == "QuickCbAcross" and (c["err"] != "" or c["ret"] != "quick/"):
+            out.append("while a function the hub passed on one link was being executed for that link's peer, a closure-carrying call of the hub on ANOTHER link returned (%s, %r) instead of completing ('quick/') within 3 s" % (c["ret"], c["err"]))
+        if c["m"] == "SlowCbAcross" and (c["err"] != "" or c["ret"] != "slow/"):
+            out.append("the hub's closure-carrying call whose function ran long returned (%s, %r), expected 'slow/'" % (c["ret"], c["err"]))
         if c["m"] == "WhoAmINew":
             if c["err"] != "" or c["ret"] in (c.get("extra") or "").split(","):
                 out.append("a link established after another one failed got identity %r (error %r), already used by %s" % (c["ret"], c["err"], c.get("extra")))
